@@ -86,7 +86,7 @@ mut("c10-getstate-drops-memo-and-universes-order", "C10", "edgegraph/structure/v
 mut("c11-adjdict-adds-values-first", "C11", "edgegraph/builder/adjlist.py",
     "        for v2 in v2s:\n            explicit.link_from_to(v1, linktype, v2)\n            v2.add_to_universe(uni)\n",
     "        for v2 in v2s:\n            v2.add_to_universe(uni)\n        for v2 in v2s:\n            explicit.link_from_to(v1, linktype, v2)\n",
-    "equivalent reordering (must NOT fire)", also=[])
+    "values walked twice: a one-shot iterable value is exhausted before linking (first classified as equivalent; the check was right)", also=[])
 mut("c11-matrix-skips-diagonal", "C11", "edgegraph/builder/adjmatrix.py",
     "            if cell:\n",
     "            if cell and (i != j or cell is True or cell == 1):\n",
